@@ -6,13 +6,14 @@
 EXTENDS MatryerMockContract, TLC, Json
 
 Trace == ndJsonDeserialize("trace.ndjson")
-VARIABLES tsig, topt, tfunc, tlog, tby, tsnaps, l
-tvars == <<tsig, topt, tfunc, tlog, tby, tsnaps, l>>
+VARIABLES tsig, topt, ttypes, tfunc, tlog, tby, tsnaps, l
+tvars == <<tsig, topt, ttypes, tfunc, tlog, tby, tsnaps, l>>
 
 Ev == Trace[l]
 
 TraceInit == /\ tsig = [m \in Methods |-> [ar |-> 0, var |-> FALSE, nres |-> 0]]
              /\ topt = [stub |-> FALSE, resets |-> FALSE]
+             /\ ttypes = "ints"
              /\ tfunc = [m \in Methods |-> Nil]
              /\ tlog = [m \in Methods |-> << >>]
              /\ tby = [m \in Methods |-> << >>]
@@ -20,19 +21,19 @@ TraceInit == /\ tsig = [m \in Methods |-> [ar |-> 0, var |-> FALSE, nres |-> 0]]
              /\ l = 1
 
 Reset == /\ l <= Len(Trace) /\ Ev.op = "reset"
-         /\ tsig' = Ev.sig /\ topt' = Ev.opt /\ tfunc' = Ev.init
+         /\ tsig' = Ev.sig /\ topt' = Ev.opt /\ tfunc' = Ev.init /\ ttypes' = Ev.types
          /\ tlog' = [m \in Methods |-> << >>]
          /\ tby' = Ev.by                    \* what the bystander instance holds before the history starts
          /\ tsnaps' = << >>
          /\ l' = l + 1
 
 Step == /\ l <= Len(Trace) /\ Ev.op # "reset"
-        /\ StepOK(tsig, topt, tfunc, tlog, tby, tsnaps, Ev)
+        /\ StepOK(tsig, topt, ttypes, tfunc, tlog, tby, tsnaps, Ev)
         /\ tfunc' = FuncsAfter(tfunc, Ev)
         /\ tlog' = Ev.logs
         /\ tsnaps' = SnapsAfter(tsnaps, tlog, Ev)      \* same retention rule as the driver, on the OBSERVED logs
         /\ l' = l + 1
-        /\ UNCHANGED <<tsig, topt, tby>>
+        /\ UNCHANGED <<tsig, topt, ttypes, tby>>
 
 \* Anything the contract does not allow: the replay is REJECTED at this event (reported), and validation
 \* resumes at the next replay so that one TLC run judges every recorded replay.
@@ -40,11 +41,11 @@ NextReset(i) == IF \E j \in (i + 1)..Len(Trace) : Trace[j].op = "reset"
                 THEN CHOOSE j \in (i + 1)..Len(Trace) : Trace[j].op = "reset" /\ \A k \in (i + 1)..(j - 1) : Trace[k].op # "reset"
                 ELSE Len(Trace) + 1
 Reject == /\ l <= Len(Trace) /\ Ev.op # "reset"
-          /\ ~StepOK(tsig, topt, tfunc, tlog, tby, tsnaps, Ev)
-          /\ PrintT(<<"REJECT", Ev.case, l, FailedClause(tsig, topt, tfunc, tlog, tby, tsnaps, Ev)>>)
+          /\ ~StepOK(tsig, topt, ttypes, tfunc, tlog, tby, tsnaps, Ev)
+          /\ PrintT(<<"REJECT", Ev.case, l, FailedClause(tsig, topt, ttypes, tfunc, tlog, tby, tsnaps, Ev)>>)
           /\ TLCSet(2, TLCGet(2) + 1)
           /\ l' = NextReset(l)
-          /\ UNCHANGED <<tsig, topt, tfunc, tlog, tby, tsnaps>>
+          /\ UNCHANGED <<tsig, topt, ttypes, tfunc, tlog, tby, tsnaps>>
 
 TraceNext == (Reset \/ Step \/ Reject) /\ TLCSet(1, l')
 TraceSpec == TraceInit /\ TLCSet(1, 1) /\ TLCSet(2, 0) /\ [][TraceNext]_tvars
